@@ -2,7 +2,7 @@
    the prefix that are >= prefix ++ start (nil and empty prefixes, all-0xff prefixes: no upper
    bound); goleveldb's Next-from-fresh loop and pebble.go's First-then-Next adapter enumerate
    the whole range in order. *)
-From Coq Require Import NArith List Lia Bool.
+From Coq Require Import NArith List Lia Bool Arith.
 From LV Require Import lib.Bytes lib.BytesFacts lib.Lex lib.SortedMap spec.KvSpec spec.KvOps
   model.PrefixRange.
 Import ListNotations.
@@ -79,16 +79,56 @@ Proof.
     + symmetry. apply lex_leb_nil.
 Qed.
 
-(* the repaired glue leaves the caller's prefix buffer alone; the pinned tree did not *)
-Theorem range_keeps_caller_buffer prefix start : caller_buffer_after_range prefix start = g_arr prefix.
-Proof. reflexivity. Qed.
+(* the repaired glue leaves every array of the caller's memory alone and returns prefix ++ start;
+   the pinned tree overwrote the bytes behind the prefix *)
+Lemma nth_set_nth_other_m {A} (x d : A) : forall j i l, j <> i -> nth i (set_nth j x d l) d = nth i l d.
+Proof.
+  induction j as [|j IH]; intros [|i] [|y l] H; cbn; auto; try congruence.
+  - destruct i; reflexivity.
+  - rewrite IH by congruence. destruct i; reflexivity.
+Qed.
+Lemma nth_set_nth_same_m {A} (x d : A) : forall i l, nth i (set_nth i x d l) d = x.
+Proof. induction i as [|i IH]; intros [|y l]; cbn; auto. Qed.
+
+Theorem range_keeps_caller_memory m prefix start :
+  (g_arr prefix < length m)%nat -> (g_len prefix <= length (nth (g_arr prefix) m []))%nat ->
+  let '(m', r) := range_start m prefix start in
+  (forall i, (i < length m)%nat -> nth i m' [] = nth i m []) /\
+  slice_bytes m' r = slice_bytes m prefix ++ start.
+Proof.
+  intros Hi Hl. unfold range_start, go_copy_mem, go_append_mem. cbn [g_arr g_len].
+  rewrite app_nth2 by lia. rewrite Nat.sub_diag. cbn [nth].
+  assert (Lc : length (slice_bytes m prefix) = g_len prefix).
+  { unfold slice_bytes. rewrite firstn_length. lia. }
+  destruct (Nat.leb (g_len prefix + length start) (length (slice_bytes m prefix))) eqn:E.
+  - (* the copy has exact capacity: only an empty start fits *)
+    apply Nat.leb_le in E. rewrite Lc in E.
+    assert (start = []) by (destruct start; cbn in E; [auto|lia]). subst start.
+    split.
+    + intros i Li. rewrite nth_set_nth_other_m by lia. now rewrite app_nth1 by lia.
+    + unfold slice_bytes at 1. cbn [g_arr g_len]. rewrite nth_set_nth_same_m. cbn [app length].
+      rewrite Nat.add_0_r, !app_nil_r.
+      assert (F : firstn (g_len prefix) (slice_bytes m prefix) = slice_bytes m prefix)
+        by (rewrite <- Lc; apply firstn_all).
+      assert (K : skipn (g_len prefix) (slice_bytes m prefix) = [])
+        by (rewrite <- Lc; apply skipn_all).
+      rewrite F, K, app_nil_r. exact F.
+  - split.
+    + intros i Li. rewrite app_nth1 by (rewrite app_length; cbn; lia). now rewrite app_nth1 by lia.
+    + unfold slice_bytes at 1. cbn [g_arr g_len].
+      rewrite app_nth2 by (rewrite app_length; cbn; lia).
+      rewrite app_length. cbn [length]. replace (length m + 1 - (length m + 1))%nat with O by lia. cbn [nth].
+      assert (F : firstn (g_len prefix) (slice_bytes m prefix) = slice_bytes m prefix)
+        by (rewrite <- Lc; apply firstn_all).
+      rewrite F. rewrite <- Lc, <- app_length. apply firstn_all.
+Qed.
 
 Example range_old_refuted :   (* NewIterator(buf[:2], "q") on buf = "abXYZ" left "abqYZ" *)
-  caller_buffer_after_range_old {| g_arr := [97; 98; 88; 89; 90]; g_len := 2 |} [113]
-  = [97; 98; 113; 89; 90]
-  /\ caller_buffer_after_range_old {| g_arr := [97; 98; 88; 89; 90]; g_len := 2 |} [113]
-     <> g_arr {| g_arr := [97; 98; 88; 89; 90]; g_len := 2 |}.
-Proof. split; [vm_compute; reflexivity | vm_compute; discriminate]. Qed.
+  let m := [[97; 98; 88; 89; 90]] in let prefix := {| g_arr := 0; g_len := 2 |} in
+  nth 0 (fst (range_start_old m prefix [113])) [] = [97; 98; 113; 89; 90] /\
+  nth 0 (fst (range_start m prefix [113])) [] = [97; 98; 88; 89; 90] /\
+  slice_bytes (fst (range_start m prefix [113])) (snd (range_start m prefix [113])) = [97; 98; 113].
+Proof. repeat split. Qed.
 
 (* ---------- iterator protocols ---------- *)
 
